@@ -6,10 +6,11 @@ import vlib
 from vlib import Undecided, read_ndjson
 
 
-def pool_cfg(ng, n, np_, sort="copy", variant="ok", uses="{1, 2}", invs=None, k=2):
+def pool_cfg(ng, n, np_, sort="copy", variant="ok", uses="{1, 2}", invs=None, k=2, list_sort="copy", uses_list="{1, 2}"):
     invs = invs or "PcExclusive AttrsExclusive NoTear NoRace NoDup Multiset WriteBeforePut"
-    return ("SPECIFICATION Spec\nCONSTANTS NG = %d N = %d NP = %d K = %d GroupSort = \"%s\" UsesGroup = %s Variant = \"%s\"\n"
-            "INVARIANTS %s\nCHECK_DEADLOCK FALSE\n" % (ng, n, np_, k, sort, uses, variant, invs))
+    return ("SPECIFICATION Spec\nCONSTANTS NG = %d N = %d NP = %d K = %d GroupSort = \"%s\" UsesGroup = %s Variant = \"%s\" "
+            "ListSort = \"%s\" UsesList = %s\n"
+            "INVARIANTS %s\nCHECK_DEADLOCK FALSE\n" % (ng, n, np_, k, sort, uses, variant, list_sort, uses_list, invs))
 
 
 def validate(ctx, tp, name):
@@ -54,14 +55,19 @@ def run(ctx, replay):
         # 1. design level: every interleaving of the per-call steps
         ctx.model_check("Pool", "P1.cfg", files={"P1.cfg": pool_cfg(2, 2 if quick else 3, 3)}, name="pool-2x2")
         # 3 goroutines x 2 calls with one chunk per record (142 M states with two chunks: too slow)
-        ctx.model_check("Pool", "P2.cfg", files={"P2.cfg": pool_cfg(3, 1 if quick else 2, 4 if quick else 3, uses="{1, 2, 3}",
+        ctx.model_check("Pool", "P2.cfg", files={"P2.cfg": pool_cfg(3, 1 if quick else 2, 4 if quick else 3, uses="{1, 2, 3}", uses_list="{2, 3}",
                                                                     k=2 if quick else 1)}, name="pool-3x1", timeout=2400)
         # 2. non-vacuity: each mechanism variant must violate its invariant
-        for sort, variant, inv in (("inplace", "ok", "NoRace"), ("copy", "putBeforeWrite", "NoTear"), ("copy", "sharedBuffer", "NoTear")):
-            w = ctx.tlc("Pool", "W.cfg", files={"W.cfg": pool_cfg(2, 1, 3, sort=sort, variant=variant, invs=inv)},
-                        name="witness-%s-%s" % (sort, variant), allow_fail=True)
+        #    (the fourth: nobody prints the shared group, two goroutines hand ONE attribute list to WriteThru, which sorts it in place)
+        for sort, variant, inv, lsort, uses, ulist in (("inplace", "ok", "NoRace", "copy", "{1, 2}", "{1, 2}"),
+                                                       ("copy", "putBeforeWrite", "NoTear", "copy", "{1, 2}", "{1, 2}"),
+                                                       ("copy", "sharedBuffer", "NoTear", "copy", "{1, 2}", "{1, 2}"),
+                                                       ("copy", "ok", "NoRace", "inplace", "{}", "{1, 2}")):
+            w = ctx.tlc("Pool", "W.cfg", files={"W.cfg": pool_cfg(2, 1, 3, sort=sort, variant=variant, invs=inv, uses=uses,
+                                                                   list_sort=lsort, uses_list=ulist)},
+                        name="witness-%s-%s-%s" % (sort, variant, lsort), allow_fail=True)
             if inv not in w.invariant_violated:
-                raise Undecided("witness %s/%s did not violate %s" % (sort, variant, inv))
+                raise Undecided("witness %s/%s/list %s did not violate %s" % (sort, variant, lsort, inv))
         s = ctx.seed
         runs = [dict(name="trace", G=8, N=40 if quick else 400, seed=s * 11 + 1, mode="trace", race=False),
                 dict(name="barrier", G=6, N=40 if quick else 300, seed=s * 11 + 2, mode="barrier", race=False),
@@ -106,8 +112,8 @@ def run(ctx, replay):
             whys.setdefault(b["why"], []).append(b["line"])
         for why, lines in whys.items():
             row = rows[lines[0] - 1]
-            key = "trace:" + ("shared-sort" if "sort" in why else "tear" if "payload" in why else "multiset" if "multiset" in why else "ownership")
-            if "in place" in why and not any("same time" in w for w in whys):
+            key = "trace:" + ("shared-list-rewritten" if "attribute list shared between calls" in why else "shared-sort" if "sort" in why else "tear" if "payload" in why else "multiset" if "multiset" in why else "ownership")
+            if key == "trace:shared-sort" and "in place" in why and not any("same time" in w for w in whys):
                 key = "trace:shared-sort-inplace"
             ctx.finding(key, "%s (run %s, %d event(s), first at line %d: %s)" % (why, rn["name"], len(lines), lines[0], json.dumps(row)[:600]),
                         dict(kind="pool", run=rn))
@@ -119,7 +125,8 @@ def run(ctx, replay):
                         "every payload is compared byte for byte with the same call issued alone (timestamps of verb calls normalised)",
                         "C09 (history independence) is needed for that comparison and is checked separately"]
     return ctx.finish(rule="TLC: all interleavings of the per-call pool/sort/format/write steps for 2x2(3) and 3x1(2) goroutines x calls "
-                           "+ 3 witness variants; code: hook traces of free-running and barrier-forced concurrent logging (6-64 "
-                           "goroutines, 1-8 loggers in 3 formats, shared groups, logger-level groups, multi-line messages, errors) "
+                           "+ 4 witness variants; code: hook traces of free-running and barrier-forced concurrent logging (6-64 "
+                           "goroutines, 1-8 loggers in 3 formats, shared groups, logger-level groups, attribute lists shared between goroutines "
+                           "and handed to WriteThru as they are, multi-line messages, errors) "
                            "validated by TLC against PoolTrace, and the same workloads under the Go race detector; non-trivial = "
                            "distinct event kinds + delivered payloads compared", exhaustive=False)
